@@ -15,7 +15,13 @@ RULE = ("history differential: random histories over {create v1/v2/hybrid of p (
         "the resulting filesystem digests must be equal.  Aimed histories: create/change/create for every kind of change; two torrents "
         "of different piece lengths with missing or short ALL-ZERO files rechecked/rebuilt one after the other (state computed on first "
         "use); operations that RAISE in the middle (symlink leaf without length in nested directories, missing metafile, directory in "
-        "place of a file) followed by ordinary operations.  A history is non-trivial when it contains a create after a filesystem change "
+        "place of a file) followed by ordinary operations; the INTERACTIVE mode (select_action driven through a patched sys.stdin in the "
+        "one-process side, harness/interactive_route.py): two or three interactive creates in one process, the first answering "
+        "trackers / seeds / comment / source / private / piece length / output path, the later ones leaving every optional answer "
+        "(and the output path) blank, an interactive create after a CLI or library create and vice versa, interactive edit and "
+        "recheck dialogs; `create --config --config-path <ini>` twice or three times in one process with DIFFERENT ini files (the "
+        "second omits keys the first sets: meta-version, piece-length, private, source, comment, web-seed), spelled create/new, "
+        "followed by a plain CLI create.  A history is non-trivial when it contains a create after a filesystem change "
         "that followed an earlier create/recheck of the same path; distinct = distinct step sequence.")
 TRUSTED_BASE = [
     "Coq 8.16.1 kernel; theorems closed under the global context",
@@ -26,7 +32,8 @@ TRUSTED_BASE = [
 ]
 ASSUMPTIONS = ["`respects`: the generated summaries over-approximate each operation's reads that flow into results and its writes"]
 
-RUNNER = os.path.join(core.VERIF, "harness", "runners", "history.py")
+# runners/history.py steps plus the interactive dialogs and `create --config` (harness/interactive_route.py delegates the rest)
+RUNNER = os.path.join(core.VERIF, "harness", "interactive_route.py")
 
 
 def gen_history(rng, length):
@@ -43,17 +50,26 @@ def gen_history(rng, length):
             else:
                 f = rng.choice(files)
             steps.append({"op": "fs", "action": act, "file": f, "seed": rng.randrange(1 << 30)})
-        elif r < 0.7:
+        elif r < 0.62:
             v = rng.choice([1, 2, 3])
             steps.append({"op": "create", "version": v, "via": rng.choice(["lib", "asm", "cli"]),
                           "pl": rng.choice([16384, 32768, 65536])})
             created.add(v)
+        elif r < 0.7:                        # an interactive create with a random subset of the answers given
+            st = {"op": "icreate", "version": rng.choice([1, 2, 3]), "out": rng.choice(["default", None, None])}
+            for k, val in (("pl", "15"), ("trackers", ["http://r/a"]), ("web", ["http://w/"]), ("http", ["http://h/"]),
+                           ("comment", f"i{rng.randrange(9)}"), ("source", "s"), ("private", True)):
+                if rng.random() < 0.4:
+                    st[k] = val
+            steps.append(st)
         else:
             v = rng.choice(sorted(created))
-            op = rng.choice(["recheck", "recheck", "edit", "magnet", "rebuild", "info"])
+            op = rng.choice(["recheck", "recheck", "edit", "magnet", "rebuild", "info", "irecheck", "iedit"])
             st = {"op": op, "version": v, "via": rng.choice(["lib", "cli"])}
             if op == "edit":
                 st["comment"] = f"c{rng.randrange(100)}"
+            if op == "iedit":
+                st["edits"] = [[rng.choice(["comment", "source"]), f"e{rng.randrange(100)}"]]
             steps.append(st)
     return steps
 
@@ -61,6 +77,11 @@ def gen_history(rng, length):
 def apply_fs(sb, step):
     import random
     act = step["action"]
+    if act == "write-ini":                   # a configuration file for `create --config --config-path`
+        import interactive_route
+        with open(os.path.join(sb, step["name"]), "w", encoding="utf-8") as fd:
+            fd.write(interactive_route.ini_text(step["cfg"]))
+        return
     if act == "remove-meta":                 # the next operation on this metafile raises
         mf = os.path.join(sb, f"m{step['version']}.torrent")
         if os.path.exists(mf):
@@ -167,11 +188,14 @@ def run_history(tmp, hid, steps, seed):
     return diffs
 
 
+CREATES = ("create", "icreate", "cfgcreate")
+
+
 def nontrivial(steps):
     seen_op, changed = False, False
     for st in steps:
-        if st["op"] in ("create", "recheck"):
-            if seen_op and changed and st["op"] == "create":
+        if st["op"] in CREATES + ("recheck", "irecheck"):
+            if seen_op and changed and st["op"] in CREATES:
                 return True
             seen_op = True
         if st["op"] == "fs" and seen_op:
@@ -253,10 +277,77 @@ def aimed_state_histories(tier):
     return out
 
 
+def interactive_histories(tier):
+    """the interactive dialogs in one process: answers of one dialog must not reach the next (an attribute shared through the
+    class, a module-level dictionary of defaults, a parser kept between runs)"""
+    out = []
+    full = {"pl": "15", "trackers": ["http://tr.example/ann", "udp://b.example:1/x"], "web": ["http://ws.example/"],
+            "http": ["http://hs.example/"], "comment": "first run", "source": "SRC", "private": True}
+    for v in (1, 2, 3):
+        h = [dict(full, op="icreate", version=v, out=f"first{v}.torrent"),
+             {"op": "fs", "action": "add", "file": "n1", "seed": 3},
+             {"op": "icreate", "version": v, "out": f"second{v}.torrent"},                  # every optional answer blank
+             {"op": "icreate", "version": v, "out": "default", "trailing": v == 2},          # output path blank as well
+             {"op": "icreate", "version": v, "out": f"third{v}.torrent", "comment": "only a comment", "pl": "16"}]
+        out.append(h)
+    # an interactive create after CLI / library creates, and the other way round
+    for v, via in ((1, "cli"), (3, "asm"), (2, "lib")) if tier == "thorough" else ((1, "cli"), (3, "asm")):
+        out.append([{"op": "create", "version": v, "via": via, "pl": 32768},
+                    {"op": "icreate", "version": v},
+                    {"op": "fs", "action": "grow", "file": "a", "seed": 9},
+                    dict(full, op="icreate", version=v, out="default"),
+                    {"op": "create", "version": v, "via": via, "pl": 16384},
+                    {"op": "icreate", "version": v, "out": "default"},
+                    {"op": "recheck", "version": v, "via": "lib"}])
+    # the other dialogs
+    out.append([{"op": "create", "version": 1, "via": "lib"},
+                {"op": "iedit", "version": 1, "edits": [["comment", "c one"], ["tracker", "http://x/a http://y/b"]]},
+                {"op": "irecheck", "version": 1},
+                {"op": "create", "version": 3, "via": "asm"},
+                {"op": "iedit", "version": 3, "edits": [["source", "S"]]},
+                {"op": "iedit", "version": 1, "edits": []},
+                {"op": "fs", "action": "shrink", "file": "a", "seed": 2},
+                {"op": "irecheck", "version": 3},
+                {"op": "icreate", "version": 3},
+                {"op": "irecheck", "version": 1}])
+    return out
+
+
+def config_histories(tier):
+    """`create --config` more than once in one process with different configuration files"""
+    a = {"meta-version": 2, "piece-length": 16, "private": True, "source": "FIRST", "comment": "made by the first run",
+         "announce": ["http://one.example/announce"], "web-seed": ["http://seed.example/data"]}
+    b = {"announce": ["http://two.example/announce"]}
+    c = {"meta-version": 3, "http-seed": ["http://h.example/s"], "comment": "third"}
+    out = []
+    pre = [{"op": "fs", "action": "write-ini", "name": "A.ini", "cfg": a}, {"op": "fs", "action": "write-ini", "name": "B.ini", "cfg": b},
+           {"op": "fs", "action": "write-ini", "name": "C.ini", "cfg": c}]
+    out.append(pre + [{"op": "cfgcreate", "ini": "A.ini", "out": "first.torrent"},
+                      {"op": "fs", "action": "rewrite", "file": "a", "seed": 4},
+                      {"op": "fs", "action": "add", "file": "n1", "seed": 5},
+                      {"op": "cfgcreate", "ini": "B.ini", "out": "second.torrent", "spelling": "new"},
+                      {"op": "cfgcreate", "ini": "C.ini", "out": "third.torrent"},
+                      {"op": "cfgcreate", "ini": "B.ini", "out": "fourth.torrent"},
+                      {"op": "create", "version": 1, "via": "cli"}])
+    out.append(pre + [{"op": "cfgcreate", "ini": "C.ini", "out": "first.torrent", "spelling": "new"},
+                      {"op": "cfgcreate", "ini": "A.ini", "out": "second.torrent"},
+                      {"op": "cfgcreate", "ini": "B.ini", "out": "third.torrent", "flags": ["--meta-version", "3"]},
+                      {"op": "recheck", "version": 1, "via": "lib"},
+                      {"op": "icreate", "version": 2}])
+    if tier == "thorough":
+        out.append(pre + [{"op": "create", "version": 2, "via": "cli"},
+                          {"op": "cfgcreate", "ini": "B.ini", "out": "first.torrent"},
+                          {"op": "cfgcreate", "ini": "A.ini", "out": "second.torrent"},
+                          {"op": "fs", "action": "delete", "file": "b", "seed": 1},
+                          {"op": "cfgcreate", "ini": "B.ini", "out": "third.torrent"},
+                          {"op": "create", "version": 2, "via": "cli"}])
+    return out
+
+
 def run(ctx, model_ok):
     import sys
     sys.path.insert(0, os.path.join(core.VERIF, "harness"))
-    n = 44 if ctx.tier == "quick" else 600
+    n = 52 if ctx.tier == "quick" else 600
     maxlen = 8 if ctx.tier == "quick" else 15
     hist = []
     # aimed prefixes first: create; change; create (every kind of change)
@@ -278,6 +369,7 @@ def run(ctx, model_ok):
                      {"op": "create", "version": v, "via": via, "pl": 32768}, {"op": "recheck", "version": v, "via": "cli"},
                      {"op": "create", "version": v, "via": via, "pl": 65536}])
     hist += aimed_state_histories(ctx.tier)
+    hist += interactive_histories(ctx.tier) + config_histories(ctx.tier)
     while len(hist) < n:
         hist.append(gen_history(ctx.rng, ctx.rng.randrange(3, maxlen + 1)))
     with core.Scratch("vc09_") as tmp:
